@@ -27,20 +27,26 @@ Definition supd (s : store) (p : N) (v : option N) : store := fun x => if (x =? 
 Definition apply_pop (s : store) (o : pop) : store :=
   match o with PPutPart p c => supd s p (Some c) | PDelPart p => supd s p None end.
 
+(* a GetPartIds call in progress: what its FIRST read returned.  The code's order is outbox query
+   first (the read transaction's snapshot of the entries), inner listing second; [LInner] is the
+   swapped order (inner listing first), kept only to show why the order matters *)
+Inductive listing_st := LOutbox (es : list pentry) | LInner (i : store).
 Record pstate := { entries : list pentry; inner_parts : store; now : N; pnext : N;
-                   workers : nat -> wstate }.
+                   workers : nat -> wstate; listing : option listing_st }.
 
 Definition wupd (f : nat -> wstate) (w : nat) (v : wstate) : nat -> wstate :=
   fun x => if Nat.eqb x w then v else f x.
 
 Definition pinit : pstate :=
-  {| entries := []; inner_parts := fun _ => None; now := 0; pnext := 1; workers := fun _ => WIdle |}.
+  {| entries := []; inner_parts := fun _ => None; now := 0; pnext := 1; workers := fun _ => WIdle; listing := None |}.
 
 Inductive pstep :=
 | SCommit (ops : list pop) | SRollback (ops : list pop)
 | SClaim (w : nat) | SReplay (w : nat) | SFinalize (w : nat)
 | SHeartbeat (w : nat) | SRelease (w : nat) | SCrash (w : nat) | STick (n : N)
-| SGet (p : N) | SIds.
+| SGet (p : N) | SIds
+| SIdsBegin | SIdsEnd                 (* GetPartIds as coded: outbox query, then inner listing *)
+| SIdsInnerFirst | SIdsOutboxSecond.  (* the swapped order *)
 
 Inductive pres :=
 | PROk | PRClaimed (id : N) | PRNone | PRDeleted | PRLost
@@ -70,6 +76,15 @@ Definition get_part (s : pstate) (p : N) : option N :=
   end.
 Definition part_ids (s : pstate) : list N :=
   filter (fun p => match get_part s p with Some _ => true | None => false end) UP.
+(* the overlay GetPartIds computes from an entry set and an inner listing read at different times *)
+Definition overlay (es : list pentry) (i : store) (p : N) : option N :=
+  match last_for es p with
+  | Some (PPutPart _ c) => Some c
+  | Some (PDelPart _) => None
+  | None => i p
+  end.
+Definition overlay_ids (es : list pentry) (i : store) : list N :=
+  filter (fun p => match overlay es i p with Some _ => true | None => false end) UP.
 
 Definition set_owner (e : pentry) (o : option nat) (u : N) : pentry :=
   {| pe_id := pe_id e; pe_op := pe_op e; pe_owner := o; pe_until := u; pe_version := (pe_version e + 1)%N |}.
@@ -81,7 +96,9 @@ Definition owned_by (e : pentry) (w : nat) : bool :=
   match pe_owner e with Some w' => Nat.eqb w w' | None => false end.
 
 Definition step_p (s : pstate) (a : pstep) : pstate * pres :=
-  let upd es i t n ws := {| entries := es; inner_parts := i; now := t; pnext := n; workers := ws |} in
+  let upd es i t n ws := {| entries := es; inner_parts := i; now := t; pnext := n; workers := ws; listing := listing s |} in
+  let lst l := {| entries := entries s; inner_parts := inner_parts s; now := now s; pnext := pnext s;
+                  workers := workers s; listing := l |} in
   match a with
   | SCommit ops =>
       let '(es, n) := commit_ops (entries s) (pnext s) ops in
@@ -129,6 +146,16 @@ Definition step_p (s : pstate) (a : pstep) : pstate * pres :=
   | STick n => (upd (entries s) (inner_parts s) (now s + n)%N (pnext s) (workers s), PROk)
   | SGet p => (s, PRContent (get_part s p))
   | SIds => (s, PRIds (part_ids s))
+  | SIdsBegin => match listing s with None => (lst (Some (LOutbox (entries s))), PROk) | Some _ => (s, PRNone) end
+  | SIdsEnd => match listing s with
+               | Some (LOutbox es) => (lst None, PRIds (overlay_ids es (inner_parts s)))
+               | _ => (s, PRNone)
+               end
+  | SIdsInnerFirst => match listing s with None => (lst (Some (LInner (inner_parts s))), PROk) | Some _ => (s, PRNone) end
+  | SIdsOutboxSecond => match listing s with
+                        | Some (LInner i) => (lst None, PRIds (overlay_ids (entries s) i))
+                        | _ => (s, PRNone)
+                        end
   end.
 
 Fixpoint run_p (s : pstate) (tr : list pstep) : pstate * list pres :=
@@ -167,6 +194,16 @@ Fixpoint no_steal (s : pstate) (ws : list nat) (tr : list pstep) : bool :=
        | _, _ => true
        end) && no_steal (fst (step_p s a)) ws t
   end.
+(* no writer transaction commits while a GetPartIds call is between its two reads *)
+Fixpoint quiet_listing (s : pstate) (tr : list pstep) : bool :=
+  match tr with
+  | [] => true
+  | a :: t =>
+      (match a, listing s with
+       | SCommit _, Some _ => false
+       | _, _ => true
+       end) && quiet_listing (fst (step_p s a)) t
+  end.
 Definition step_worker (a : pstep) : list nat :=
   match a with
   | SClaim w | SReplay w | SFinalize w | SHeartbeat w | SRelease w | SCrash w => [w]
@@ -177,7 +214,8 @@ End M.
 
 (* ---------------------------------------------------------------- line protocol
    <lease> <pids> <step> ...   steps: X<ops> commit, Y<ops> rollback (ops: p+c or p- separated by ','; "_" = none),
-   C<w> R<w> F<w> H<w> L<w> K<w> (claim replay finalize heartbeat release crash), T<n>, G<p>, I
+   C<w> R<w> F<w> H<w> L<w> K<w> (claim replay finalize heartbeat release crash), T<n>, G<p>, I,
+   B / E (GetPartIds: first read / second read + result), b / e (the same in the swapped order)
    output: one token per step, then "#", the inner store as p=c pairs over the pid universe, "Q"<pending> *)
 Definition parse_pop (t : bytes) : option pop :=
   match split_first "+"%byte t with
@@ -204,6 +242,10 @@ Definition parse_pstep (t : bytes) : option pstep :=
       else if beqb c "T"%byte then option_map STick (parse_N r)
       else if beqb c "G"%byte then option_map SGet (parse_N r)
       else if bytes_eqb t B"I" then Some SIds
+      else if bytes_eqb t B"B" then Some SIdsBegin
+      else if bytes_eqb t B"E" then Some SIdsEnd
+      else if bytes_eqb t B"b" then Some SIdsInnerFirst
+      else if bytes_eqb t B"e" then Some SIdsOutboxSecond
       else None
   end.
 Definition show_ns (l : list N) : bytes := match l with [] => B"_" | _ => join B"," (map show_N l) end.
